@@ -263,10 +263,13 @@ class C14(Check):
             # sampled pairs for the double interrupt
             import random
             rng = random.Random(f'{base_seed}:{name}:pairs')
-            pairs = 150 if tier == 'quick' else 1500
+            pairs = 500 if tier == 'quick' else 4000
             for _ in range(pairs):
                 k1 = rng.randrange(n)
-                k2 = rng.randrange(60) if rng.random() < 0.7 else rng.randrange(400)
+                # (half of the second interrupts arrive within the first few check points after the first one:
+                # inside the first handler's log call, before / around its cancel())
+                u = rng.random()
+                k2 = rng.randrange(6) if u < 0.5 else (rng.randrange(60) if u < 0.8 else rng.randrange(400))
                 cases.append({'workload': name, 'interrupts': [{'mode': 'line', 'k': k1}, {'mode': 'line', 'k': k2}]})
             info.append({'workload': name, 'check_points_in_run_tasks': n, 'sampled_pairs': pairs})
         # process backends: for fixed workloads and fixed schedules, every main-thread line boundary too
@@ -286,9 +289,10 @@ class C14(Check):
                         cases.append({'workload': name, 'backend': backend, 'sched': sched, 'interrupts': [{'mode': 'line', 'k': k}]})
                     import random
                     rng = random.Random(f'{base_seed}:{name}:{backend}:{sched}:pairs')
-                    for _ in range(100 if tier == 'quick' else 600):
+                    for _ in range(200 if tier == 'quick' else 1000):
                         k1 = rng.randrange(n)
-                        k2 = rng.randrange(60) if rng.random() < 0.7 else rng.randrange(300)
+                        u = rng.random()
+                        k2 = rng.randrange(6) if u < 0.5 else (rng.randrange(60) if u < 0.8 else rng.randrange(300))
                         cases.append({'workload': name, 'backend': backend, 'sched': sched,
                                       'interrupts': [{'mode': 'line', 'k': k1}, {'mode': 'line', 'k': k2}]})
                     # ... and every manager proxy call of the calling thread (its queue polls), between the
